@@ -758,7 +758,9 @@ class TOTP:
         info = lookup_hash(alg or self.alg)
         self.alg = info.name
         digest_size = info.digest_size
-        if digest_size < 4:
+        if digest_size < 20:
+            # NOTE: the dynamic truncation (RFC 4226 5.3) reads 4 bytes
+            #       at an offset of up to 15, see _generate()
             raise RuntimeError(f"{alg!r} hash digest too small")
 
         # parse or generate new key
